@@ -33,7 +33,7 @@ def thresholds(rng, d, full=False):
     out = []
     if d not in (0, inf):
         out += [d * (1 - 1e-3), d * (1 + 1e-3), d / 2, 2 * d]
-    out += [1e-9, 1e9, 0.5, 3.0]
+    out += [1e-9, 1e9, 0.5, 3.0, 0.05, 0.3]
     return out if full else [rng.choice(out), rng.choice(out[:4] or out)]
 
 
@@ -185,7 +185,7 @@ def run(ctx):
         nd = rng.choice([0, 0, 0, 1, 2])
         if x < 0.3:
             c = r
-        kind = rng.choice([None, "alpha", "dyadic", "mono", "flat", "gauss"])
+        kind = rng.choice([None, "alpha", "dyadic", "mono", "flat", "gauss", "small", "small"])
         if nd:
             s1, s2 = np.array(gen.series_nd(rng, r, nd, kind)), np.array(gen.series_nd(rng, c, nd, kind))
         else:
@@ -199,6 +199,13 @@ def run(ctx):
             elif x > 0.8:
                 s1 = np.array([rng.gauss(0, 1)])
                 r = 1
+            elif x > 0.72:
+                # unequal lengths with DTW == Euclidean: the longer series ends in a plateau at the last value of the shorter
+                base = gen.series(rng, r, "dyadic")
+                other = [v + rng.choice([0.0, 0.5, 0.25]) for v in base[:-1]] + [base[-1]]
+                s1 = np.array(base)
+                s2 = np.array(other + [base[-1]] * rng.randint(1, 4))
+                c = len(s2)
         kw = gen.rand_settings(rng, r, c, with_mld=False)
         if rng.random() < 0.5:
             kw.pop("max_step", None)
